@@ -270,7 +270,7 @@ fn run_bounds(cx: &Cx, rep: &mut Report, rules: &[&str]) {
     rep.analysed.insert("successful paths whose bounds trace was checked".into(), json!(total_paths));
     rep.floor("role runs analysed for bounds", runs.len(), 19);
     // the field-level judgement (default bound pushed iff the field is used and resolution reached the end) must actually be made
-    rep.floor("field-level default-bound judgements", JUDGED.with(|c| c.get()), if collapse { 3000 } else { 15000 });
+    rep.floor("field-level default-bound judgements", JUDGED.with(|c| c.get()), if collapse { 2500 } else { 12000 });
 }
 
 pub fn c04(cx: &Cx) -> i32 {
